@@ -15,7 +15,12 @@ def scenarios(tier, pid):
     S = []
 
     def sc(name, props, *args):
-        if pid in props:
+        # every scenario is judged by every property of the component whose monitor can speak about
+        # it (the seeded-bug rounds kept finding "the same change, caught only by the neighbour's
+        # scenarios"); `props` only keeps C04 (needs a previous handler) and C03 (needs a delivery
+        # injected inside a mutator or a handler-atomic run) apart
+        common = ("C01", "C02", "C05", "C18")
+        if pid in props or (pid in common and any(q in common for q in props)):
             S.append((name, list(args)))
     A = ("C01", "C02", "C03", "C05", "C18")
     sc("unreg_vs_delivery", A, "--threads", "U1;D10", "--pre", "R10:1,R10:2", "--preempt", 3)
@@ -38,6 +43,8 @@ def scenarios(tier, pid):
        "--prev", "10:plain,12:info", "--preempt", 3 if tier == "thorough" else 2)
     sc("prev_after_all_actions_removed", ("C04", "C02"), "--threads",
        "R10:1,R12:2,U1,D10,D12,S12,D12,D10,R10:3,D10", "--prev", "10:plain,12:info")
+    sc("unregsig_vs_other_mutators", ("C18", "C01", "C05"), "--threads", "S10,R10:3;R12:4,U1;U2",
+       "--pre", "R10:1,R10:2", "--preempt", 2)
     sc("panicking_destructor_then_more_calls", ("C18",), "--threads", "U90,R10:2,U2;R12:3",
        "--pre", "R10:90", "--preempt", 1)
     sc("prev_ignored_default", ("C04",), "--threads", "R10:1;R12:2", "--prev", "10:ign",
@@ -47,8 +54,10 @@ def scenarios(tier, pid):
     sc("stale_and_fresh_ids", ("C05", "C01"), "--threads", "R10:1,U1,U1,R10:2,R12:3,S10,S10,U3",
        "--nested", 1)
     sc("stale_id_after_reregistration", ("C02", "C05"), "--threads", "R10:1,R10:2,U2,R10:3,U2,D10,U1,U3")
-    sc("poisoned_writer_then_concurrent_mutators", ("C01", "C05", "C18"), "--threads",
+    sc("poisoned_writer_then_concurrent_mutators", ("C01", "C02", "C05", "C18"), "--threads",
        "U90,U1,D10;R12:5", "--pre", "R10:90,R10:1", "--preempt", 2)
+    sc("poisoned_writer_then_concurrent_registrations", ("C02", "C05"), "--threads",
+       "U90,R10:3,D10;R10:4,D10", "--pre", "R10:90", "--preempt", 2)
     sc("failed_os_registration_then_more_calls", ("C18", "C05"), "--threads", "N9:5,R10:1,U1;N19:6,R12:2",
        "--preempt", 1)
     sc("handler_at_every_point", ("C03", "C01", "C02"), "--threads", "R10:1,U1,R12:2,S12,U7",
